@@ -338,7 +338,165 @@ func runC09(r *Run) {
 	checkMergeEmits(r, "R7")
 	r.Rule("R5", "FLOW.grant-start: the start time handed to addGrant (which DisjunctPeriods takes as the start of the grant's own periods) derives from the grant's start — a parameter or message field of the calling function — and never from the target account's StartTime")
 	checkGrantStart(r, "R5")
+	r.Rule("R8", "PATH.every-period-validated: in every ValidateBasic that ranges over a LockupPeriods / VestingPeriods message field, each pass through the loop tests that period's own Length in a branch and branches on Coins.IsValid of that period's own Amount before the next iteration — the keeper works with schedule totals only, so a non-positive amount compensated by another period (a schedule that rises above the grant and falls back) is stopped here or nowhere")
+	checkPeriodsValidated(r, "R8")
+	r.Rule("R9", "PATH.merge-reads-the-old-schedule: in addGrant no store into the account's StartTime, EndTime, LockupPeriods or VestingPeriods can precede a DisjunctPeriods call — both merges (lock-up and vesting) read the account's start and periods as they were before the grant; a merge that runs after the first write-back re-bases the existing events on the new start (every old vesting event moves earlier when the grant is back-dated)")
+	checkMergeBeforeUpdate(r, "R9")
 	_ = fmt.Sprint
+}
+
+// valueBranches: v (a bool) decides a branch, directly or through negation / boolean combination.
+func valueBranches(v ssa.Value, depth int) bool {
+	if v.Referrers() == nil || depth > 4 {
+		return false
+	}
+	for _, u := range *v.Referrers() {
+		switch x := u.(type) {
+		case *ssa.If:
+			return true
+		case *ssa.UnOp:
+			if valueBranches(x, depth+1) {
+				return true
+			}
+		case *ssa.BinOp:
+			if valueBranches(x, depth+1) {
+				return true
+			}
+		case *ssa.Phi:
+			if valueBranches(x, depth+1) {
+				return true
+			}
+		}
+	}
+	return false
+}
+
+func checkPeriodsValidated(r *Run, rule string) {
+	P := r.P
+	n := 0
+	for _, fn := range P.Funcs {
+		if fn.Name() != "ValidateBasic" || fn.Synthetic != "" || isTestSupport(P, fn) || !strings.Contains(fnPkgPath(fn), "/x/") {
+			continue
+		}
+		for _, h := range fn.Blocks {
+			if !isLoopHeader(h) {
+				continue
+			}
+			body := loopBody(h)
+			elems := map[ssa.Value]bool{}
+			field := ""
+			for b := range body {
+				for _, in := range b.Instrs {
+					ia, ok := in.(*ssa.IndexAddr)
+					if !ok {
+						continue
+					}
+					pt, ok := ia.Type().Underlying().(*types.Pointer)
+					if !ok || namedName(pt.Elem()) != "Period" {
+						continue
+					}
+					sl := backSlice(ia.X)
+					for _, f := range []string{"LockupPeriods", "VestingPeriods"} {
+						if sl.HasField("", f) {
+							elems[ia] = true
+							field = f
+						}
+					}
+				}
+			}
+			if len(elems) == 0 {
+				continue
+			}
+			n++
+			ofElem := func(v ssa.Value, fld string) bool {
+				sl := backSlice(v)
+				has := false
+				sl.Any(func(x ssa.Value) bool {
+					if elems[x] {
+						has = true
+					}
+					return has
+				})
+				return has && sl.HasField("Period", fld)
+			}
+			isAmountCheck := func(in ssa.Instruction) bool {
+				c, ok := in.(*ssa.Call)
+				if !ok {
+					return false
+				}
+				ci := callInfo(c)
+				if !(ci.Name == "IsValid" || ci.Name == "Validate") || ci.Recv != "Coins" {
+					return false
+				}
+				a := callArgs(c)
+				return len(a) > 0 && ofElem(a[0], "Amount") && valueBranches(c, 0)
+			}
+			isLengthCheck := func(in ssa.Instruction) bool {
+				b, ok := in.(*ssa.BinOp)
+				if !ok {
+					return false
+				}
+				switch b.Op {
+				case token.LSS, token.LEQ, token.GTR, token.GEQ:
+				default:
+					return false
+				}
+				return (ofElem(b.X, "Length") || ofElem(b.Y, "Length")) && valueBranches(b, 0)
+			}
+			next := func(in ssa.Instruction) bool { return in == h.Instrs[0] }
+			for _, ev := range []struct {
+				name string
+				is   func(ssa.Instruction) bool
+				bad  string
+			}{
+				{"amount-valid", isAmountCheck, "an iteration over " + field + " can complete without branching on IsValid of that period's Amount: a zero or negative period amount that another period compensates passes validation, and the stored schedule is no longer non-decreasing (vested rises above the grant, then falls)"},
+				{"length-positive", isLengthCheck, "an iteration over " + field + " can complete without testing that period's Length: a zero or negative length makes release events run backwards in time"},
+			} {
+				var w []ssa.Instruction
+				for _, s := range h.Succs {
+					if !body[s] || s == h {
+						continue
+					}
+					if p := (PathQuery{Fn: fn, StartBlock: s, Block: ev.is, Target: next}).Search(); p != nil {
+						w = p
+					}
+				}
+				r.Check(w == nil, rule, fmt.Sprintf("%s#%s/%s", fnID(fn), field, ev.name), P.Pos(instrPos(h.Instrs[0])), "checked in every iteration", ev.bad, P.witness(w)...)
+			}
+		}
+	}
+	r.Floor(rule, "ValidateBasic loops over schedule periods", n, 4)
+}
+
+func checkMergeBeforeUpdate(r *Run, rule string) {
+	P := r.P
+	ag, ok := P.FnOK("(x/vesting/keeper.Keeper).addGrant")
+	if !ok {
+		r.Bad(rule, "anchor/addGrant", "", "not found")
+		return
+	}
+	isMerge := isCallMatching(func(ci CallInfo) bool { return ci.Name == "DisjunctPeriods" })
+	n := 0
+	var w []ssa.Instruction
+	what := ""
+	eachInstr(ag, func(in ssa.Instruction) {
+		st, ok := in.(*ssa.Store)
+		if !ok {
+			return
+		}
+		_, f, ok := fieldOfAddr(st.Addr)
+		if !ok || !(f == "StartTime" || f == "EndTime" || f == "LockupPeriods" || f == "VestingPeriods") {
+			return
+		}
+		n++
+		if p := (PathQuery{Fn: ag, Start: in, Target: isMerge}).Search(); p != nil && w == nil {
+			w, what = p, f
+		}
+	})
+	nm := len(findCalls(ag, func(ci CallInfo) bool { return ci.Name == "DisjunctPeriods" }))
+	r.Check(w == nil && nm >= 2, rule, fnID(ag)+"#merges-before-write-back", P.Pos(fnPos(ag)), fmt.Sprintf("%d merges, all before the %d schedule stores", nm, n),
+		"addGrant writes the account's "+what+" back before a DisjunctPeriods call (or no longer merges both schedules): the later merge reads the already updated account and re-bases its existing release events — a back-dated grant moves every old vesting event earlier, unlocking unvested coins", P.witness(w)...)
+	r.Floor(rule, "schedule stores in addGrant", n, 4)
 }
 
 // checkGrantStart: every addGrant call passes the grant's own start time. DisjunctPeriods reads each
